@@ -168,7 +168,7 @@ def make_scratch(mounts, atomics_files=(), extra_subs=(), tmp_root=None):
             if not os.path.isfile(tp):
                 raise InfraError(f"mount target missing in /repo: core/src/{target}")
             modname = "verif_" + os.path.splitext(hfile)[0]
-            _write(tp, _read(tp) + f'\n#[cfg(kani)]\n#[path = "{hp}"]\nmod {modname};\n')
+            _write(tp, _read(tp) + f'\n#[cfg(kani)]\n#[path = "{hp}"]\npub(crate) mod {modname};\n')
             applied.append(f"mount {hfile} under {target}")
         return scratch, applied
     except Exception:
